@@ -364,6 +364,9 @@ def polyhedral_termlist_from_string(str_rep: str) -> List[PolyhedralTerm]:
         tokens: pp.ParseResults = expression.parse_string(str_rep, parse_all=True)
     except pp.ParseBaseException as pe:
         raise PolyhedralSyntaxException(pe, str_rep)
+    except ZeroDivisionError:
+        pe = pp.ParseException(str_rep, 0, "division by zero in constant arithmetic")
+        raise PolyhedralSyntaxException(pe, str_rep)
 
     if len(tokens) == 1:
         e = tokens[0]
